@@ -306,6 +306,26 @@ theorem bboxSpec_eq_ite (shape : List Nat) (data : List Int) (hlen : data.length
   · have := c2 (fun e => h ((nzPos_nil_iff shape data).mp e))
     exact ⟨by rw [this, if_neg h], fun e => absurd e h⟩
 
+/-- the oracle's box is tight: it contains every non-zero pixel and each bound is attained -/
+theorem bboxSpec_sound (shape : List Nat) (data : List Int) (hlen : data.length = shapeSize shape)
+    (hnd : 0 < shape.length) (b : List Int) (hb : bboxSpec shape data = some b) (j : Nat) (hj : j < shape.length) :
+    let ps := ((List.range data.length).filter fun i => data.getD i 0 ≠ 0).map (unravelI shape)
+    ps ≠ [] ∧ (∀ p ∈ ps, b.getD (2 * j) 0 ≤ p.getD j 0 ∧ p.getD j 0 + 1 ≤ b.getD (2 * j + 1) 0) ∧
+    (∃ p ∈ ps, p.getD j 0 = b.getD (2 * j) 0) ∧ (∃ p ∈ ps, p.getD j 0 + 1 = b.getD (2 * j + 1) 0) := by
+  intro ps
+  obtain ⟨c1, c2⟩ := bboxSpec_eq shape data hlen hnd
+  have hps : ps ≠ [] := by
+    intro e
+    rw [(c1 e).1] at hb
+    cases hb
+  have h2 := c2 hps
+  rw [hb] at h2
+  have hbe : b = bboxGeneric shape data := Option.some.inj h2
+  rw [(bboxGeneric_cases shape data hlen hnd).2 hps] at hbe
+  obtain ⟨t1, t2⟩ := bbox_tight shape data hlen j hj
+  rw [hbe]
+  exact ⟨hps, t1, (t2 hps).1, (t2 hps).2⟩
+
 /-- **the labeled.bbox oracle is the labeled.bbox model** (non-negative labels filling a shape of rank ≥ 1) -/
 theorem bboxLabeledSpec_eq (shape : List Nat) (labels : List Int) (n : Nat)
     (hnn : ∀ v ∈ labels, 0 ≤ v) (hlen : labels.length = shapeSize shape) (hnd : 0 < shape.length) :
